@@ -5,6 +5,7 @@ import AcraModel.CrossClient.Keys
 import AcraModel.CrossClient.Token
 import AcraModel.CrossClient.Tls
 import AcraModel.CrossClient.TlsIdentity
+import AcraModel.CrossClient.TlsIdentityInj
 import AcraModel.CrossClient.TlsServer
 import AcraModel.CrossClient.BoxLaws
 import AcraModel.CrossClient.Box45
@@ -549,6 +550,18 @@ theorem tls_identity_injective_dn (h : Bytes → Bytes) {c1 c2 : Cert} (hne : dn
     · cases hj
     · rename_i hemp; rw [if_neg hemp]
   exact tls_identity_injective_partial h .distinguishedName _ hnc (k c1 id1 e1) (k c2 id2 e2) (by simp) (by simp) hne e1 e2
+
+/-- **The string form of a subject determines the subject** (`pkix.Name.String()` on the standard
+attributes is injective: separators and backslashes inside values are escaped, the short names are distinct
+and end in their only `=`). So "different distinguished name" may be read on the parsed certificate. -/
+theorem dn_string_injective {n1 n2 : Name} (h : dnString n1 = dnString n2) : n1 = n2 := dnString_injective h
+
+/-- `distinguished_name` mode on the certificate side at full strength: two certificates whose subjects differ
+in any standard attribute (another OU, another O, another CN, …) get different client ids. -/
+theorem tls_identity_injective_subject (h : Bytes → Bytes) {c1 c2 : Cert} (hne : c1.subject ≠ c2.subject)
+    (hnc : NoColl h [dnString c1.subject, dnString c2.subject]) {id1 id2 : Bytes}
+    (e1 : extractClientID h .distinguishedName (some c1) = .ok id1) (e2 : extractClientID h .distinguishedName (some c2) = .ok id2) : id1 ≠ id2 :=
+  tls_identity_injective_dn h (fun he => hne (dnString_injective he)) hnc e1 e2
 
 /-- the same certificate – indeed any two certificates with the same identifier – gets the same id -/
 theorem tls_identity_deterministic (h : Bytes → Bytes) (m : IdMode) {c1 c2 : Option Cert}
